@@ -566,6 +566,9 @@ def headers_table(ctx, rid, part):
                                                               b"X-Forwarded-Proto: " + b"h" * 30, b"A: b\r\n " + b"c" * 30]),
                            ({"limit_request_field_size": 30, "permit_obsolete_folding": True}, [b"A: b\r\n " + b"c" * 10, b"A: b\r\n " + b"c" * 19, b"A: b\r\n " + b"c" * 20, b"A: b\r\n " + b"c" * 8 + b"\r\n " + b"d" * 8,
                                                                                                b"A: b\r\n " + b"c" * 8 + b"\r\n " + b"d" * 20]),
+                           # the count is a count of *fields*: continuation lines of a folded field do not count
+                           ({"limit_request_fields": 2, "permit_obsolete_folding": True}, [b"A: 1\r\n b\r\n c", b"A: 1\r\n b\r\nB: 2\r\n\tc", b"A: 1\r\n b\r\nB: 2\r\n\tc\r\nC: 3", b"A: 1\r\n b\r\n c\r\n d\r\n e"]),
+                           ({"limit_request_fields": 1, "permit_obsolete_folding": True}, [b"X: a\r\n\tb", b"X: a\r\n\tb\r\nY: c"]),
                            ({"limit_request_field_size": 30, "header_map": "refuse"}, [b"X_Pad: " + b"a" * 30]),
                            ({"limit_request_field_size": 0}, [b"X-Pad: " + b"a" * 9000]),
                            ({"limit_request_field_size": 30, "peer": ("10.0.0.9", 1)}, [b"X-Forwarded-Proto: " + b"h" * 30, b"SCRIPT_NAME: /" + b"s" * 30])):
